@@ -98,6 +98,37 @@ func (c *Ctx) concatOf(f *FA, v ssa.Value, use ssa.Instruction, depth int) ([]cp
 		}
 	case *ssa.MakeSlice:
 		return c.presizedParts(f, x, use)
+	case *ssa.Slice:
+		// a slice literal of explicit octets: []byte{a, b}
+		if al, ok := x.X.(*ssa.Alloc); ok && isByteArrayPtr(al.Type()) && x.Low == nil && x.High == nil {
+			n, _ := arrayLen(al.Type())
+			elems := make([]ssa.Value, n)
+			for _, ref := range *al.Referrers() {
+				ia, ok := ref.(*ssa.IndexAddr)
+				if !ok {
+					continue
+				}
+				k, ok := ia.Index.(*ssa.Const)
+				if !ok {
+					return nil, false
+				}
+				idx, _ := constInt64(k.Value)
+				for _, r2 := range *ia.Referrers() {
+					if st, ok := r2.(*ssa.Store); ok && idx >= 0 && idx < n {
+						elems[idx] = st.Val
+					}
+				}
+			}
+			var out []cpart
+			for _, e := range elems {
+				if e == nil {
+					out = append(out, cpart{Kind: "zeros", Len: konst(1)})
+				} else {
+					out = append(out, cpart{Kind: "byte", Val: e, Len: konst(1)})
+				}
+			}
+			return out, true
+		}
 	}
 	return nil, false
 }
